@@ -83,8 +83,9 @@ def main():
             r = subprocess.run([os.path.join(VERIF, "check"), p, "--repo", wt, "--no-evidence"], capture_output=True, text=True, cwd=VERIF)
             keys = ["%s %s" % x for x in re.findall(r"^  (\S+) (.*?) at ", r.stdout, re.M)]
             return p, r.returncode, keys, re.findall(r"^BROKEN.*$", r.stdout, re.M)
+        todo = [] if os.path.exists("/tmp/seed_skip_detect") else ["C%02d" % i for i in range(1, 20)]   # tools/redetect.py fills it in
         with concurrent.futures.ThreadPoolExecutor(max_workers=int(os.environ.get("SEED_JOBS", "4"))) as ex:
-            for p, rc, keys, broken in ex.map(run_check, ["C%02d" % i for i in range(1, 20)]):
+            for p, rc, keys, broken in ex.map(run_check, todo):
                 if rc != 0:
                     det[p] = {"rc": rc, "reported": keys[:5], "broken": broken[:1]}
         meta["detected_by"] = det
